@@ -29,6 +29,14 @@ def run_unit(name, spec, repo, workdir, tier="quick", seed=0, prop=None):
                 s2 = s.replace('"/repo/', '"%s/' % repo.rstrip("/"))
                 if s2 != s:
                     open(p, "w").write(s2)
+    # files generated from the repo under test by vx (e.g. the scalar constants the mounted files refer to)
+    for tpl, rel in spec.get("vx_gen", []):
+        g = subprocess.run([os.path.join(VERIF, "vx", "target", "release", "vx"), repo, os.path.join(VERIF, tpl), os.path.join(crate, rel),
+                            os.path.join(workdir, "vxgen.log.json")], capture_output=True, text=True)
+        if g.returncode != 0:
+            res["reason"] = "extraction for harness crate failed: " + g.stderr.strip()[-300:]
+            res["wall_s"] = time.time() - t0
+            return res
     lock = os.path.join(repo, "Cargo.lock")
     if os.path.exists(lock):
         shutil.copy(lock, os.path.join(crate, "Cargo.lock"))
@@ -45,7 +53,7 @@ def run_unit(name, spec, repo, workdir, tier="quick", seed=0, prop=None):
     # the target dir is shared across properties for the same repo root (compilation is the dominant cost)
     tdir = os.path.join(VERIF, ".work", "kani-target-" + name.lower() + ("" if repo.rstrip("/") == "/repo" else "-alt"))
     cmd = ["cargo", "kani", "--target-dir", tdir, "-j", str(spec.get("jobs", 6)), "--output-format", "terse",
-           "-Z", "unstable-options", "--export-json", out_json] + spec.get("kani_args", [])
+           "-Z", "unstable-options", "--export-json", out_json, "--harness-timeout", "%ds" % spec.get("harness_timeout_s", 600)] + spec.get("kani_args", [])
     for h in selected:
         cmd += ["--harness", h]
     env = dict(os.environ)
